@@ -711,7 +711,14 @@ def encode_trace(res, tid, sc):
                             nxt_eq_t=bool(e["nxt"] is not None and e["nxt"] == p["t"]),
                             lands_on_next=bool(e["nxt"] is not None and p["t"] + e["h"] == e["nxt"]),
                             passes_next=bool(e["nxt"] is not None and p["t"] + e["h"] > e["nxt"]),
-                            first=bool(p["t"] == 0 and p["niter"] == 0)))
+                            first=bool(p["t"] == 0 and p["niter"] == 0),
+                            # the configured fixed step is the step in use: at the start of a run or segment, and after a step that
+                            # converged in a few iterations when the step was already (nearly) the configured one
+                            fixed_is_configured=bool(
+                                not e["fixt"] or e["busted"] or e["tstep"] <= 0 or
+                                not ((p["t"] == 0 and p["niter"] == 0) or e["resume"] or
+                                     (p["conv"] and p["niter"] <= 6 and p["dt"] * 1.1 >= e["tstep"])) or
+                                e["dt"] == e["tstep"])))
         elif k == "run_end":
             status = [int(round(e["status"].get(t, -1))) if e["status"].get(t) is not None else -1
                       for t in res["targets"]]
